@@ -30,7 +30,7 @@ ASSUMPTIONS = [
 THETA_HATS = [-1.0, 0.0, 0.5, 1.0, 2.0, 3.0, 5.0, 6.0]
 ALPHAS = [0.01, 0.05, 0.1, 0.5, 0.9]
 METHODS = ["quantile", "bc", "bca"]
-AFFINE = [(2.0, -3.0), (0.5, 10.0)]
+AFFINE = [(2.0, -3.0), (0.5, 10.0), (1.0, 1048576.0)]  # the last: a large exact shift (spread << magnitude)
 NAN = float("nan")
 
 
@@ -176,14 +176,33 @@ def run(item, ctx, tier, seed):
                             variants.append(("nan-removed", [t for t in theta if not math.isnan(t)], th, 1.0, 0.0))
                         for a_, b_ in AFFINE:
                             variants.append((f"affine{a_},{b_}", [a_ * t + b_ for t in theta], a_ * th + b_, a_, b_))
+                        # the caller passes the same ndarray again: it must be unchanged and give the same limits
+                        arr = np.array(theta[::-1], dtype=float)  # unsorted, NaNs (if any) first
+                        keep = arr.copy()
+                        for rep in range(2):
+                            ok, ci = guarded(ctx, "reused-array", case, lambda: __import__("score_analysis").utils.bootstrap_ci(
+                                arr, th, alpha, method=method))
+                            ctx.tick()
+                            if ok and not np.allclose(np.asarray(ci, dtype=float), base, rtol=0, atol=tol, equal_nan=True):
+                                ctx.fail("same-array-same-limits", dict(case, call=rep + 1), observed=ci, expected=list(base))
+                            if not np.array_equal(arr, keep, equal_nan=True):
+                                ctx.fail("replicate-array-unchanged", dict(case, call=rep + 1), observed=arr, expected=keep)
+                                break
+                        # integer-valued replicates stored in an integer array
+                        if all(not math.isnan(t) and float(t).is_integer() for t in theta):
+                            ok, ci = guarded(ctx, "int-dtype", case, lambda: __import__("score_analysis").utils.bootstrap_ci(
+                                np.array(theta, dtype=np.int64), th, alpha, method=method))
+                            ctx.tick()
+                            if ok and not np.allclose(np.asarray(ci, dtype=float), base, rtol=0, atol=tol, equal_nan=True):
+                                ctx.fail("integer-replicates-same-limits", case, observed=ci, expected=list(base))
                         for name, th2, hat2, a_, b_ in variants:
                             ok, ci = guarded(ctx, "variant-" + name, case, _call, th2, hat2, alpha, method)
                             ctx.tick()
                             if not ok:
                                 continue
                             want = (a_ * base[0] + b_, a_ * base[1] + b_)
-                            if not np.allclose(np.asarray(ci, dtype=float), want, rtol=0, atol=tol * max(a_, 1.0),
-                                               equal_nan=True):
+                            if not np.allclose(np.asarray(ci, dtype=float), want, rtol=0,
+                                               atol=tol * max(a_, 1.0) + 1e-15 * abs(b_), equal_nan=True):
                                 clause = ("affine-equivariant" if name.startswith("affine") else
                                           "nan-replicates-ignored" if name.startswith("nan") else "order-of-replicates-irrelevant")
                                 ctx.fail(clause, dict(case, variant=name), observed=ci, expected=list(want))
